@@ -196,6 +196,12 @@ let () =
                 (match stepm (SAcquire (nat_of_int (int_of_string w), d = "1")), r with
                  | Some RGranted, "g" | Some RBlocked, "b" | Some RFailed, "f" -> ()
                  | _ -> wrong "Acquire_result_differs_from_the_model")
+              | ["r"; w] when w <> "-" && (match (!s).s_wait with h :: _ -> int_of_nat h <> int_of_string w | [] -> false)
+                              && List.exists (fun x -> int_of_nat x = int_of_string w) (!s).s_wait ->
+                (* the woken goroutine is queued in the model but not first: the harness issued two blocking
+                   Acquire calls whose goroutines enqueued themselves in the other order (scheduling of
+                   the harness, not of the semaphore): the recorded order is ambiguous, the oracle judged the run *)
+                bad := Some "UNJUDGED enqueue-order"
               | ["r"; w] ->
                 (match stepm SRelease with
                  | Some (RDone woken) ->
@@ -211,6 +217,7 @@ let () =
               | _ -> wrong "unknown_op"
             end) ops;
         (match !bad with
+         | Some why when String.length why >= 8 && String.sub why 0 8 = "UNJUDGED" -> Printf.printf "%s %s\n" id why
          | Some why -> Printf.printf "%s REJECT %s\n" id why
          | None ->
            Printf.printf "%s SEM held=%d wait=%s\n" id (int_of_nat (!s).s_held)
